@@ -36,7 +36,11 @@ def run(ctx):
     ctx.assumptions += ["ranges with start > end and Flip ending at 2^64-1 are outside the API contract and not generated",
                         "official-format provenance limited to 32-bit values and fewer than 4 run containers"]
     exhaustive = True
+    import os
+    only = os.environ.get("VERIF_ONLY", "")   # development aid: run only the cfgs containing this substring
     for cfg, fam, K, M, q, t in RUNS:
+        if only and only not in cfg:
+            continue
         mode, num = t if thorough else q
         if mode == "simulate":
             exhaustive = False
